@@ -1,6 +1,7 @@
 package engine
 
 import (
+	"crypto/sha256"
 	"encoding/hex"
 	"fmt"
 	"math/big"
@@ -162,7 +163,30 @@ func (w *World) normNotifs(evs []state.NotificationEvent) []Notif {
 func (w *World) Read(layer *dao.Simple, h uint32, ts uint64, c util.Uint160, method string, args ...any) Obs {
 	o := w.Run(layer, h, ts, Script(c, method, args...))
 	o.Layer = nil
+	if w.LogReads {
+		// a running digest of every answer a driver reads back (the dual-world comparison of C15 compares it per
+		// transition: a difference that sits in a read path leaves no trace in storage). Where a fault is raised is
+		// not behaviour, so a fault is recorded as such only
+		if w.readSum == nil {
+			w.readSum = sha256.New()
+		}
+		if o.Halt {
+			fmt.Fprintf(w.readSum, "%s%v=%v;", method, args, o.Stack)
+		} else {
+			fmt.Fprintf(w.readSum, "%s%v=FAULT;", method, args)
+		}
+	}
 	return o
+}
+
+// TakeReads returns the digest of the answers read since the last call and starts a new one.
+func (w *World) TakeReads() string {
+	if w.readSum == nil {
+		return ""
+	}
+	d := fmt.Sprintf("%x", w.readSum.Sum(nil)[:6])
+	w.readSum = nil
+	return d
 }
 
 // Norm normalises a stack item: bytes -> "x<hex>", integers/bools -> "i<dec>", arrays and
